@@ -13,8 +13,8 @@
    number of cells the frame had when the scope was formed: the reference evaluator only sees that prefix (lexical
    scoping), the Go code sees the whole map (a closure made while a dolist/dotimes/do* frame is still being filled
    later sees the cells added afterwards).  No definition in this file is mode-dependent except through the small
-   functions [arg_red], [store_red], [truthy], [or_step], [last_red], [locate_m], [short_args], [neg_count],
-   [do_test_atom]: they are the complete list of places where M and S differ.
+   functions [store_red], [truthy], [or_step], [last_red], [locate_m], [short_args], [neg_count], [do_test_atom]:
+   they are the complete list of places where M and S differ.
 
    Side effects are calls of the harness-defined function (tr k e): evaluates e, appends k to the trace, returns
    the (primary) value of e.  No proofs in this file. *)
@@ -175,14 +175,10 @@ Definition locate_m (m : mode) (fs : list frame) (sc : scope) (x : string) : out
   | Ref => Ok (locate true fs sc x)
   | Chk => if loc_eqb (locate false fs sc x) (locate true fs sc x) then Ok (locate true fs sc x) else Er EDev
   end.
-(* Function.Eval: an evaluated argument that is a Values object is replaced by vs[0]; no value: Go indexes
-   an empty slice (host fault), the language says nil *)
-Definition arg_red (m : mode) (v : val) : out val :=
-  match v with
-  | VValues (x :: _) => Ok x
-  | VValues [] => match m with Slip => Er EFault | Ref => Ok VNil | Chk => Er EDev end
-  | _ => Ok v
-  end.
+(* Function.Eval: an evaluated argument that is a Values object is replaced by vs.First(): its first element, nil
+   when there is none (the same in every mode since the repair of Values.First; the mode argument is kept for
+   uniformity with the other switches) *)
+Definition arg_red (m : mode) (v : val) : out val := Ok (primary v).
 (* let, let*, do, do* (initial and step values): Go stores the object EvalArg returned, Values included *)
 Definition store_red (m : mode) (v : val) : out val :=
   match m with
